@@ -405,9 +405,18 @@ func shortCallee(in ssa.Instruction) string {
 
 func c02R3(h H) {
 	r := h.r
-	r.Rule("R3", "redirects stay on-origin: every http.Redirect in staticfiles/browse takes (*url.URL).String() of a local URL value as its target and is reachable only through the false edge of strings.HasPrefix(<that URL>.Path, \"//\") (the '//'-stripping loop)", 3)
+	r.Rule("R3", "redirects stay on-origin: every http.Redirect in staticfiles/browse takes (*url.URL).String() of a local URL value as its target and is reachable only through the false edge of strings.HasPrefix(<that URL>.Path, \"//\") (the '//'-stripping loop); for the file server the same is decided as a table of serveFile (E10)", 2)
 	n := 0
+	// the file server's redirects are decided from what serveFile does (E10 table); the pattern below remains for
+	// browse, and for the file server only to name a site when the table fails
+	tblBad, tblN := fileRedirectTable(h)
+	if fn := h.p.Func(sfPkg, "FileServer.serveFile"); fn != nil {
+		r.Check(tblBad == "", "R3", "staticfiles.FileServer.serveFile/redirect-table", fn.Pos(), "a directory requested without trailing slash and a file requested with one are redirected to the same path with the slash added or removed and exactly one leading slash, for request paths starting with one, two or three slashes", sprintf("%d cases evaluated", tblN), tblBad)
+	}
 	for _, fn := range h.p.PkgFuncs(sfPkg, brPkg) {
+		if tblBad == "" && fn.Pkg != nil && strings.HasSuffix(fn.Pkg.Pkg.Path(), sfPkg) {
+			continue
+		}
 		for k, c := range findCalls(fn, func(in ssa.Instruction) bool { return isCallTo(in, "net/http.Redirect") }) {
 			n++
 			construct := sprintf("%s/redirect#%d", shortFunc(fn), k+1)
@@ -515,7 +524,7 @@ func c02R3(h H) {
 		}
 	}
 	if n == 0 {
-		r.Unresolve("R3", "no http.Redirect call found in staticfiles/browse")
+		r.Unresolve("R3", "no http.Redirect call found in browse")
 	}
 }
 
